@@ -56,8 +56,27 @@ def read_side_interest(ctx, rule):
 
 
 def mirror(ctx, rule, fname, which):
+    """Decided on the paths cut at the first return to a loop header; where a write sits in the loop's own condition
+    (`while c.state == AwaitingOutgoing && c.write().is_ok() {}` with the re-arm behind the loop) the state test that
+    follows the call lies just behind that cut: the paths are then taken once more round the loop."""
+    from .c06 import _Rec
+    a = _Rec(ctx)
+    _mirror(a, rule, fname, which, False)
+    if not a.failed():
+        return a.replay(ctx)
+    b = _Rec(ctx)
+    try:
+        _mirror(b, rule, fname, which, True)
+    except AnalysisError as e:
+        b.fail(rule, "%s|cannot-establish|second-iteration" % fname.split("::")[-1], str(e))
+    if not b.failed():
+        return b.replay(ctx)
+    a.replay(ctx)
+
+
+def _mirror(ctx, rule, fname, which, unroll):
     facts = ctx.facts
-    fn, lv = leaves(ctx, fname, lower=True)
+    fn, lv = leaves(ctx, fname, lower=True, unroll=unroll)
     short = fname.split("::")[-1]
     n = 0
     for lf in lv:
@@ -69,6 +88,15 @@ def mirror(ctx, rule, fname, which):
             recv = look(e[4][2][0])
             if lf.kind == "loop" and e[1] in lf.trace and lf.trace.index(lf.bb) > lf.trace.index(e[1]):
                 continue   # ends at the back edge of a loop entered after the call: the rest of the iteration is on the path that leaves that loop
+            if unroll and lf.kind == "loop":
+                heads = [k for k, b_ in enumerate(lf.trace) if b_ == lf.bb]
+                # where in the trace the call sits: align the events before it with the blocks of the trace
+                pos = 0
+                for ev in lf.events[:i + 1]:
+                    if len(ev) > 1 and ev[1] in lf.trace[pos:]:
+                        pos = lf.trace.index(ev[1], pos)
+                if len(heads) >= 3 and pos > heads[1]:
+                    continue   # a call made after the loop's second visit: the path on which that visit is the first one follows the same call through the loop test and beyond
             # a path on which the call itself failed and the error is returned needs no re-arm
             rk = ret_kind(lf)
             failed = any(t[0] == "discr" and is_call(t[1], "branch") and norm(look(t[1][2][0])) == norm(e[4]) and c == ("eq", 1) for (t, c, _b) in lf.conds)
